@@ -17,7 +17,7 @@ from vf.core import ok, bad, skip
 
 ID = "C27"
 LEVEL = "exploration"
-RULE = ("case = one assignment of the 14 option factors; quick enumerates a verified pairwise covering array, "
+RULE = ("case = one assignment of the 17 option factors; quick enumerates a verified pairwise covering array plus all single-factor deviations plus the full product of the output-related option cluster, "
         "thorough the full product; non-trivial = run that executed at least one real iteration (not dry)")
 ASSUMPTIONS = ["comm=None (task-count independence is C22)", "tiny two-key model; 3 global iterations"]
 
@@ -25,7 +25,8 @@ FACTORS = [
     ("outdir", [False, True]),
     ("sanity", [True, False]),
     ("strategy", ["latest", "all"]),
-    ("plots", [False, True]),
+    ("plot_energy", [False, True]),
+    ("plot_minisanity", [False, True]),
     ("constants", [False, True]),
     ("point_estimates", [False, True]),
     ("n_samples", ["2", "0", "sched"]),
@@ -96,14 +97,21 @@ def cases(tier, seed):
         for n, v in FACTORS:
             for alt in v[1:]:
                 singles.append(dict(default, **{n: alt}))
-        rows = singles + rows
+        # full product over the output cluster (interacting options that only matter together), rest default
+        cluster = ["outdir", "strategy", "plot_energy", "plot_minisanity", "export"]
+        fd = dict(FACTORS)
+        prod = [dict(default, **dict(zip(cluster, combo))) for combo in itertools.product(*[fd[n] for n in cluster])]
+        prod = [r for r in prod if r["outdir"] or not (r["plot_energy"] or r["plot_minisanity"] or r["export"] or r["strategy"] != "latest")]
+        rows = singles + prod + rows
     else:
         names = [f[0] for f in FACTORS]
         rows = []
         for combo in itertools.product(*[f[1] for f in FACTORS]):
             r = dict(zip(names, combo))
-            if r["plots"] and not (r["outdir"] and r["strategy"] == "all" and not r["dry_run"]):
-                continue    # plotting restricted (slow); still crossed with every other factor once
+            if (r["plot_energy"] or r["plot_minisanity"]) and not (r["outdir"] and r["strategy"] == "all" and not r["dry_run"]
+                                                                   and not r["geovi"] and not r["export"]):
+                continue    # plotting restricted (slow): both plot switches are crossed with each other and with
+                            # the remaining factors under outdir/all/no-dry-run only
             if r["export"] and not r["outdir"]:
                 continue
             if r["geovi"] and (r["resume_finished"] or r["transitions"] != "none"):
@@ -155,8 +163,8 @@ def run(case):
     state0 = rnd.getState()
     kw = dict(nonlinear_sampling_minimizer=geo, constants=consts, point_estimates=pes, transitions=trans,
               export_operator_outputs=export, output_directory=odir, initial_position=pos,
-              inspect_callback=insp, terminate_callback=term, plot_energy_history=c["plots"],
-              plot_minisanity_history=c["plots"], save_strategy=c["strategy"],
+              inspect_callback=insp, terminate_callback=term, plot_energy_history=c["plot_energy"],
+              plot_minisanity_history=c["plot_minisanity"], save_strategy=c["strategy"],
               return_final_position=c["return_pos"], sanity_checks=c["sanity"], dry_run=c["dry_run"],
               fresh_stochasticity=fresh, comm=None)
     fk = lambda what: "%s" % what   # noqa
@@ -223,8 +231,10 @@ def run(case):
                 return bad("last_finished_iteration=%s, expected %d" % (lf, last_it), finding_key="marker")
             if c["export"] and not os.path.isdir(os.path.join(odir, "sig")):
                 return bad("exported operator output directory missing", finding_key="export-missing")
-            if c["plots"] and not os.listdir(os.path.join(odir, "energy_history")):
-                return bad("energy history plot missing", finding_key="plot-missing")
+            if c["plot_energy"] and not os.listdir(os.path.join(odir, "energy_history")):
+                return bad("energy history plot missing", finding_key="plot-missing|energy")
+            if c["plot_minisanity"] and c["n_samples"] != "0" and not os.listdir(os.path.join(odir, "minisanity_history")):
+                return bad("minisanity history plot missing", finding_key="plot-missing|minisanity")
         # ---- resume of a finished run returns the same result without recomputation
         if c["resume_finished"] and odir and not c["dry_run"] and not c["terminate"]:
             before = models_cl.samplelist_digest(sl)
